@@ -204,3 +204,23 @@ package log
 //@   ghostcode at return: result0.gin := gopen
 //@   ghostcode at return: result0.gidx := gopenIdx
 //@   loop 1 invariant first != nil ==> gopen[ref(first)] && forall(x, gopen[x] ==> x != 0 && allocated(x) && SegGood(x) && (SNext(x) != 0 ==> gopen[SNext(x)])) && forall(x, y, gopen[x] && gopen[y] && x != y ==> SegSep(x, y))
+
+// RemoveGTE: entries >= i go away from the back: whole segments are closed and deleted, the segment that
+// contains i is truncated (segment.removeGTE); if every segment goes, one empty segment at i-1 is created.
+// Everything is committed first, so a truncated header never exposes unsynced bytes (C14.remove-after-commit).
+//@ pure RGLast(old uint64, i uint64) uint64 = ite(i > old, old, ite(i == 0, 0, i - 1))
+//@ func (*Log).RemoveGTE params(l, i0)
+//@   props C02 C03 C04 C06 C10
+//@   requires LogShape(l) && l.index == nil
+//@   requires [C14.no-stale-segment] NoStale(l)
+//@   modifies l.first, l.last, l.gin, segment.n, segment.size, segment.synced, segment.next, segment.prev, elems(uint8), mmap.File.gdur, fs
+//@   ensures [C13+C04.remove-gte-shape] result0 == nil ==> LogShape(l)
+//@   ensures [C13+C04.remove-gte-last] result0 == nil ==> LogLast(l) == RGLast(old(LogLast(l)), i0)
+//@   ensures [C13+C04.remove-gte-prev] result0 == nil ==> (l.first == old(l.first) && LogPrev(l) == old(LogPrev(l))) || (isfresh(l.first) && l.first == l.last && LogPrev(l) == ite(i0 == 0, 0, i0 - 1) && LogLast(l) == LogPrev(l))
+//@   ensures [C13+C04.remove-gte-kept] result0 == nil ==> forall(x, l.gin[x] && old(l.gin[x]) ==> SP(x) == old(SP(x)) && (x != ref(l.last) ==> SN(x) == old(SN(x))))
+//@   ghostcode after call closeAndRemove 1: l.gin[ref(s)] := false
+//@   ghostcode after call openSegment 1: l.gin := setof(ref(result0))
+//@   loop 1 invariant LogShape(l) && forall(x, l.gin[x] ==> old(l.gin[x]) && SegSame2(x)) && forall(x, l.gin[x] && SN(x) > 0 ==> SSy(x) == SN(x))
+//@   loop 1 invariant i == i0 && l.first == old(l.first) && LogLast(l) <= old(LogLast(l)) && (LogLast(l) < old(LogLast(l)) ==> i0 <= LogLast(l) + 1)
+//@   loop 1 invariant forall(x, old(l.gin[x]) && !l.gin[x] ==> !fs[old(SName(x))]) && forall(p, fs[p] ==> old(fs[p])) && forall(x, old(l.gin[x]) ==> SName(x) == old(SName(x)) && SP(x) == old(SP(x)))
+//@ pure SegSame2(x *segment) bool = x.n == old(x.n) && x.prevIndex == old(x.prevIndex) && x.size == old(x.size) && x.file == old(x.file)
